@@ -144,6 +144,7 @@ def compare_lxml(model, impl, args):
 from props import c03_oracle as _O  # noqa: E402,F401  (must be imported before c03_models)
 from props import c03_models  # noqa: E402
 from props import c03_compose  # noqa: E402
+from props import c03_frag  # noqa: E402
 from props.c03_gen import (  # noqa: E402
     gen_clean,
     gen_escape,
@@ -173,10 +174,14 @@ CORRS = [
     Corr("ser.compose", c03_compose.gen_compose, c03_compose.impl_compose, compare=c03_compose.cmp_compose,
          classify=c03_compose.classify_compose,
          describe="XmlSerializer(writer=XmlEventWriter).render on real class universes vs Bind/Gen ∘ Xml/Writer (exact text)"),
-    Corr("ser.hyps", c03_compose.gen_compose, c03_compose.impl_hyps, compare=c03_compose.cmp_compose,
+    Corr("ser.hyps", c03_compose.gen_hyps, c03_compose.impl_hyps, compare=c03_compose.cmp_compose,
          classify=c03_compose.classify_hyps,
          describe="hypotheses eventsOK/eventsPlain/userMapOK of serialize_*_partial: Lean on the model's events vs an independent "
                   "transcription evaluated on the REAL generator's events"),
+    Corr("ser.frag", c03_frag.gen_frag, c03_frag.impl_frag, compare=c03_frag.cmp_frag, classify=c03_frag.classify_frag,
+         describe="input-level hypotheses of serialize_*_FN_partial (ctxOK/valOKI of C01, ctxLexOK/valLexOK/valExactOK) on real universes: "
+                  "Lean vs an independent transcription; inside them the REAL serializer's document must be well-formed and (exact) "
+                  "denote the harness's reading of the REAL generator's events; composed model text = real text"),
     Corr("ns.clean", gen_clean, impl_clean, describe="clean_prefixes"),
     Corr("xml.split_qname", gen_split, impl_split, describe="split_qname"),
     Corr("ns.load_prefix", gen_prefix, impl_load_prefix, describe="load_prefix"),
@@ -187,14 +192,15 @@ CORRS = [
 
 from props.c03_oracle import FINDINGS, ORACLES as _EVENT_ORACLES  # noqa: E402,F401
 
-ORACLES = list(_EVENT_ORACLES) + [c03_models.ORACLE]
+ORACLES = list(_EVENT_ORACLES) + [c03_models.ORACLE, c03_frag.ORACLE]
 
 TRUSTED = [
     "tokens → text: `Xs.Sax.render` is compared byte for byte with XMLGenerator's output; that this text parses to the infoset `Spec.XmlNs.infoset` assigns to the tokens is checked by sampling against expat and lxml, not proved (no XML parser in Lean); escape/quoteattr are proved invertible and markup-free (escape_inverse, quoteattr_inverse)",
     "Spec/XmlNs.lean is my transcription of XML 1.0 (5th ed.) Char/NCName, end-of-line handling and the Namespaces in XML 1.0 constraints; `isNCName` is compared with libxml2's name validation on all code points < 0x250 and the range edges",
-    "lxml's ElementTreeContentHandler + serializer are not modelled: the lxml writer is tied to the model's SAX calls by correspondence only (handler_denotes_events_partial is about those calls)",
+    "lxml's ElementTreeContentHandler + etree.tostring are not modelled: the assumption about them is the explicit hypothesis `LxmlBuildsSaxTree` of writers_denote_same_tree_partial / serializers_denote_same_tree(_FN)_partial (what lxml builds and prints reads back as the tree the SAX calls denote); op writer.lxml samples exactly this statement on the real LxmlEventWriter",
     "metadata → events: EventGenerator is the binding layer's model Bind/Gen.lean (C01's files, tied to the code by C01's ops and, composed with my writer, by op ser.compose on the exact text of XmlSerializer.render); builders.py is not modelled here: Spec/ObjectTree.lean (declarative reading of the metadata, no theorems) is compared with XmlSerializer.render on random binding models (op ser.object)",
-    "the generated events' lexical / ordering facts (eventsOK: NCName names, XML characters, ATTR only right after START/ATTR, no namespaced QName in late DATA) are a decidable hypothesis on `generate`'s output in serialize_*_partial, not derived from ctxOK/valOK; op ser.hyps evaluates it on the real generator's events and compares with Lean on the model's events. Well-nestedness of the events IS proved for every universe and value (generate_well_nested)",
+    "serialize_*_FN_partial rest on C01's theorem bind_generate_FN (the abstract writer of Bind/Write.lean accepts the generated events: gives `generate = ok`, the coverage of every payload and attrsFollow) and on my provenance induction (Proofs/GenLex.lean, every universe with ctxLexOK); their hypotheses are input-level: ctxOK/valOKI (C01; compared with an independent description by C01's op c01.valFN), ctxLexOK/valLexOK/valExactOK (Spec/BindLex.lean; compared with an independent transcription by op ser.frag, which also checks the conclusions on the REAL serializer). Outside C01's fragments serialize_*_partial keep the per-case hypothesis eventsOK on `generate`'s output (op ser.hyps)",
+    "xsi:type VALUES: serialize_says_metadata(_FN)_partial exclude them (valExactOK / eventsPlain); what is proved about them is the text-level tree (serialize_denotes_sax_tree_FN_partial) and qname_value_resolves (prefix bound to the namespace in the element's map); that they resolve in the document's scope to the class the metadata prescribes is checked by oracle c03.frag on the real output, not proved",
     "`NsEnv.isNcnamePy` (namespaces.is_ncname inside EventHandler.validate_prefixes) is instantiated with `ncnamePyApprox`: exact on ASCII, every non-ASCII character counted as str.isalpha; the generators use the non-ASCII prefixes U+00AA and U+00E9 only (both letters for Python)",
     "CPython dict order / str.replace / str.partition / str(int) are modelled by hand (Xml/Dict.lean, Py/Basic.lean)",
 ]
@@ -205,7 +211,12 @@ ASSUMPTIONS = [
     "event values are str / QName / lists of them / None (what EventGenerator.encode_primitive produces); int/bool atoms are modelled and compared but excluded from the theorems",
 ]
 LEVEL_TEXT = (
-    "Composition (serialize_wellformed_partial, serialize_denotes_sax_tree_partial, serialize_says_metadata_partial, render_wellformed_partial): for EVERY "
+    "Fragments (serialize_wellformed_FN_partial, serialize_denotes_sax_tree_FN_partial, serialize_says_metadata_FN_partial, serializers_denote_same_tree_FN_partial): "
+    "for every class universe and instance in C01's fragments (any feature set: nillable, token lists, wrappers, sequences, fixed fields, Attributes maps, inheritance/xsi:type) "
+    "whose metadata names are NCNames with declarable namespaces and whose strings are XML characters (ctxLexOK/valLexOK — hypotheses on the INPUTS only), every user prefix map in "
+    "userMapOK: XmlSerializer.render raises nothing, the document is namespace-well-formed and denotes the tree of the handler's calls; if no xsi:type is needed (valExactOK) it denotes "
+    "the tree an independent reader assigns to the generated events; under the explicit assumption about lxml (LxmlBuildsSaxTree) both writers denote the same tree. "
+    "Composition for EVERY universe (serialize_wellformed_partial, serialize_denotes_sax_tree_partial, serialize_says_metadata_partial, render_wellformed_partial): for EVERY "
     "universe and value, if Bind/Gen's EventGenerator model returns events they are well nested (generate_well_nested, proved), and when they pass the "
     "decidable lexical check eventsOK the native writer model writes a namespace-well-formed document that denotes the tree of those events; "
     "prefix maps that cannot be declared are rejected with XmlWriterError (invalid_prefix_rejected, render_rejects_invalid_prefixes; repair c03d-01). Below that: "
@@ -218,5 +229,5 @@ LEVEL_TEXT = (
 )
 LEVEL_NOTE = (
     "Trusted: Lean kernel; hand model of dict/str primitives; XML/Namespaces spec transcription; token→text→parser link by sampling; "
-    "lxml writer only by correspondence/oracle; generator→writer composition proved structurally, its lexical side condition (eventsOK) checked per case, not derived from the metadata."
+    "lxml behind the explicit hypothesis LxmlBuildsSaxTree (sampled by writer.lxml); inside C01's fragments the theorems quantify over universes and instances only (rests on C01's bind_generate_FN); xsi:type values resolve in scope: oracle only."
 )
